@@ -491,6 +491,20 @@ class Worker:
             fn = KIND_FNS[op.kind][r.choice([2, 3])]; q = s.call(fn, s=sess, **({'data': '00' * 16} if fn.endswith('Update') else {}), buf=256)
             s.part.observe('multi-part call on a single-part-only cipher operation', {'call': fn, 'mech': op.m.name, 'rv': q['rvname']}); op.maybe_gone = True
             s.case(op.kind, op.cls, 'arg-rejection', 'real', nontrivial=False); return
+        if x < 0.36 and op.m.sym and op.kind in ('encrypt', 'decrypt') and 0 < op.i < len(op.calls) - 1 and KIND_FNS[op.kind][2] == op.calls[op.i]['fn']:
+            # a single-part call on an operation that already took parts (the statement is silent on whether it is allowed; the library accepts it): whatever it answers, the length
+            # protocol holds -- nothing behind the announced size is written and CKR_OK never reports more than was announced.  The session is replaced afterwards.
+            fn = KIND_FNS[op.kind][1]; rest = b''.join(bytes.fromhex(c['kw'].get('data', '')) for c in op.calls[op.i:] if 'data' in c['kw'])
+            q0 = s.call(fn, s=sess, data=rest.hex(), buf=None); L = (q0.get('out') or {}).get('len') if q0['rv'] == 0 else None
+            for A in ([L] if isinstance(L, int) and 0 <= L < 70000 else []) + [len(rest)]:
+                cap = A + 512; q = s.call(fn, s=sess, data=rest.hex(), buf=cap, announce=A); o = q.get('out') or {}
+                if q['rvname'] == NOINIT: break
+                if q['rv'] == 0 and o.get('len', 0) > A: s.V(fn, f'{op.cls},single-part-call-after-parts', 'reported>announced', f'{fn} after {op.i} part(s) of a multi-part {op.kind} ({op.m.name}) returned CKR_OK reporting {o.get("len")} bytes into a buffer announced as {A}', mech=op.m.name, announced=A, reported=o.get('len'), parts_before=op.i)
+                d = bytes.fromhex(o.get('data', '')) if 'data' in o else b''
+                if not o.get('tail_ok', True) and (q['rv'] != 0 or o.get('len', 0) <= A): s.V(fn, f'{op.cls},single-part-call-after-parts', 'wrote-beyond-announced', f'{fn} after {op.i} part(s) of a multi-part {op.kind} ({op.m.name}) modified bytes behind the announced length {A} ({q["rvname"]})', mech=op.m.name, announced=A, reported=o.get('len'), parts_before=op.i)
+                if q['rv'] == 0: break
+            s.part.count('single_part_calls_after_parts'); s.case(op.kind, op.cls, 'single-part-after-parts', 'real')
+            s.x.call('C_CloseSession', s=sess); S['h'] = s.x.call('C_OpenSession', slot=s.slot)['h']; S['op'] = None; S['state'] = 'none'; return
         s.plan_step(S)
     def resolve_unknown(s, S):
         """after an argument rejection on the last call: end whatever is there; afterwards nothing may be active"""
